@@ -341,9 +341,16 @@ func c44TagEndToEnd(t *rapid.T, ctx context.Context, s string) (classes []string
 	if want, _ := r.commit.HashOf(); func() bool { h, _ := tg.Commit.HashOf(); return h != want }() {
 		t.Fatalf("tag %q does not point at the commit it was created at", s)
 	}
-	if strings.EqualFold(s, "head") {
+	switch {
+	case strings.EqualFold(s, "head"):
 		classes = append(classes, "tag_named_like_head_not_resolved")
-	} else {
+	case !c44BranchOK(s):
+		// NewCommitSpec documents that a ref base must be a valid *branch* name; the one tag
+		// name that can be stored but is no valid branch name is "@" (a single '@' is only
+		// forbidden as a whole dataset id). It is reachable by its qualified name.
+		classes = append(classes, "tag_not_nameable_by_bare_spec")
+		c44ResolvesTo(t, ctx, r, "refs/tags/"+s, "tag (qualified)")
+	default:
 		c44ResolvesTo(t, ctx, r, s, "tag")
 		c44ResolvesTo(t, ctx, r, "refs/tags/"+s, "tag (qualified)")
 	}
@@ -471,7 +478,7 @@ func c44ParseSuffix(s string) (steps []int, ok bool) {
 }
 
 var c44SuffixPieces = []string{"~", "~", "^", "^", "~1", "~2", "~3", "^1", "^2", "~0", "^0", "^3", "~01", "^02", "~10", "^12"}
-var c44BadPieces = []string{"~x", "~-1", "^-1", "x", "+", "~ 1", "^ 2", "^a", "1", "~1x", "^2x", "~99999999999999999999", "^99999999999999999999", "~1000000000", "!", "@", "~~x", "~\t1"}
+var c44BadPieces = []string{"~x", "~-1", "^-1", "x", "+", "~ 1", "^ 2", "^a", "1", "~1x", "^2x", "~99999999999999999999", "^99999999999999999999", "~100000", "!", "@", "~~x", "~\t1"}
 
 func c44GenSuffix(t *rapid.T, label string) string {
 	var b strings.Builder
